@@ -175,7 +175,13 @@ Record robot := {
 Definition mem (n : name) (l : list name) : bool := existsb (String.eqb n) l.
 
 (* ---- MagicRobot._collect_injectables -------------------------------- *)
+(* self._exclude_from_injection = ["logger"], a LIST: the test
+   [n in self._exclude_from_injection] is [mem] -- n equals an element of the
+   list --, not Python's substring test between two str.  A robot attribute
+   called log, g, er, logg, loggers, Logger ... is an injectable like any other
+   (Proofs: excluded_iff_logger, collect_rename, robot_attr_by_name_delivered_comp). *)
 Definition exclude_from_injection : list name := ["logger"].
+Definition excluded (n : name) : bool := mem n exclude_from_injection.
 
 Fixpoint collect_injectables (dir : list rattr) : imap :=
   match dir with
